@@ -81,6 +81,13 @@ func RunC06(c *Ctx) {
 					if e2 != nil || !bytes.Equal(g2, ws) || p2 != wend {
 						c.Rec.Violate(cs, "ReadStringBytes(dst cap) value/offset!=model", "ReadStringBytes", exp, fmt.Sprintf("cap=%d val=%q p=%d err=%s", k, g2, p2, errStr(e2)))
 					}
+					// the same with a destination that already holds two bytes: the content must follow them
+					dst3 := append(make([]byte, 0, k+2), 'k', '=')
+					g3, p3, e3 := rjson.ReadStringBytes(d, dst3)
+					c.Rec.Evals(1)
+					if e3 != nil || len(g3) < 2 || g3[0] != 'k' || g3[1] != '=' || !bytes.Equal(g3[2:], ws) || p3 != wend {
+						c.Rec.Violate(cs, "ReadStringBytes(non-empty dst) does not return the existing bytes followed by the content", "ReadStringBytes", fmt.Sprintf("%q p=%d", append([]byte("k="), ws...), wend), fmt.Sprintf("cap=%d val=%q p=%d err=%s", k+2, g3, p3, errStr(e3)))
+					}
 				}
 			}
 		})
